@@ -6,7 +6,8 @@ ruamel / netCDF4 / pandas / numpy text IO is a *transport* and only observed by 
 
 §1  key and label text:   `save_model`'s tuple-key rendering  f"({k[0]}, {k[1]})"  and the three regular
     expressions of glotaran/utils/regex.py that the loader uses (`tuple_word` with `re.match`,
-    `word` with `findall`, `number_scientific` with `re.match`), as deterministic matchers.
+    `word` with `findall`, `number_scientific` with `re.match`): the patterns, how they are applied and the
+    f-string are regenerated from the source (`Generated/C17.lean`) and run by the regex machine of `C17Regex.lean`.
 §2  specification trees:  `YmlProjectIo.save_model` (tuple keys → strings, fixed depth), the yaml
     transport (python tuples come back as lists, everything else unchanged — assumption, sampled),
     `sanitize_dict_keys` (in-place mutation + returned `d_new`), `sanity_scientific_notation_conversion`.
@@ -20,75 +21,30 @@ ruamel / netCDF4 / pandas / numpy text IO is a *transport* and only observed by 
 Strings are `List Char` (`Str`) so that the theorems do not depend on the representation of `String`.
 -/
 import GlotaranModel.Proto
+import GlotaranModel.Generated.C17
 namespace Glotaran.C17
 
-abbrev Str := List Char
+/-! ## §1 key and label text
 
-/-! ## §1 key and label text -/
+The three regular expressions and the key template are the *generated* constants (`Generated/C17.lean`,
+regenerated from glotaran/utils/regex.py, sanitize.py and yml.py on every run), interpreted by the regex machine
+of `C17Regex.lean` the way the code applies them.  Their closed forms (`tupleWordMatchDet`, `wordRunsAux`,
+`sciRestDet`, `renderPair` in GlotaranProofs/Lemmas/C17Regex.lean) are *theorems* about these definitions
+(`generated_*_eq_model`), so an edit of a pattern re-opens them. -/
 
-/-- `\w` restricted to ASCII (labels outside ASCII are explored by the oracle only) -/
-def isWordChar (c : Char) : Bool := c.isAlphanum || c == '_'
+/-- `rp.tuple_word.match(s)` -/
+def tupleWordMatch (s : Str) : Bool := Regex.useTest Generated.tupleWordUse Generated.tupleWord s
 
-/-- `\s` (ASCII) -/
-def isSpaceChar (c : Char) : Bool :=
-  c == ' ' || c == '\t' || c == '\n' || c == '\r' || c == Char.ofNat 11 || c == Char.ofNat 12
+/-- `rp.word.findall(s)` -/
+def wordFindall (s : Str) : List Str := Regex.useFindall Generated.wordUse Generated.word s
 
-/-- `[.\s\w\d]` -/
-def classA (c : Char) : Bool := c == '.' || isSpaceChar c || isWordChar c
-/-- `[,.\s\w\d]` -/
-def classB (c : Char) : Bool := c == ',' || classA c
-
-/-- `rp.tuple_word.match(s)`: `(\([.\s\w\d]+?[,.\s\w\d]*?\))` anchored at the start only.
-    `)` is in neither class, so the lazy quantifiers have exactly one way to succeed. -/
-def tupleWordMatch (s : Str) : Bool :=
-  match s with
-  | '(' :: c :: rest =>
-    classA c && (match rest.dropWhile classB with
-                 | ')' :: _ => true
-                 | _ => false)
-  | _ => false
-
-/-- `rp.word.findall(s)`: the maximal runs of word characters; `cur` is the run being read (reversed) -/
-def wordRunsAux : Str → Str → List Str
-  | [], cur => if cur.isEmpty then [] else [cur.reverse]
-  | c :: cs, cur =>
-    if isWordChar c then wordRunsAux cs (c :: cur)
-    else if cur.isEmpty then wordRunsAux cs []
-    else cur.reverse :: wordRunsAux cs []
-
-def wordFindall (s : Str) : List Str := wordRunsAux s []
-
-/-- `f"({k[0]}, {k[1]})"` -/
-def renderPair (a b : Str) : Str := '(' :: (a ++ (',' :: ' ' :: (b ++ [')'])))
-
-/-- `[eE][-+]?[0-9]+` at the front: the rest after the (greedy) exponent, `none` if it does not match -/
-def sciExp : Str → Option Str
-  | e :: rest =>
-    if e == 'e' || e == 'E' then
-      let r := match rest with
-        | s :: r' => if s == '-' || s == '+' then r' else rest
-        | [] => []
-      if (r.takeWhile Char.isDigit).isEmpty then none else some (r.dropWhile Char.isDigit)
-    else none
-  | [] => none
-
-/-- `rp.number_scientific.match(s)`: `[-+]?[0-9]*\.?[0-9]+([eE][-+]?[0-9]+)` anchored at the start;
-    returns what follows the match -/
-def sciRest (s : Str) : Option Str :=
-  let s1 := match s with
-    | c :: r => if c == '-' || c == '+' then r else s
-    | [] => []
-  let d1 := s1.takeWhile Char.isDigit
-  let r1 := s1.dropWhile Char.isDigit
-  match (if d1.isEmpty then none else sciExp r1) with
-  | some rest => some rest
-  | none =>
-    match r1 with
-    | '.' :: r2 =>
-      if (r2.takeWhile Char.isDigit).isEmpty then none else sciExp (r2.dropWhile Char.isDigit)
-    | _ => none
+/-- `rp.number_scientific.match(s)`: what follows the match (`none` = no match) -/
+def sciRest (s : Str) : Option Str := Regex.useRest Generated.numberScientificUse Generated.numberScientific s
 
 def sciMatch (s : Str) : Bool := (sciRest s).isSome
+
+/-- `f"({k[0]}, {k[1]})"`: the closed form of the generated key template for two labels -/
+def renderPair (a b : Str) : Str := '(' :: (a ++ (',' :: ' ' :: (b ++ [')'])))
 
 /-! ## §2 specification trees -/
 
@@ -149,13 +105,14 @@ def KV.hasTupleKey : KV → Bool
   | .cons (.t _) _ _ => true
   | .cons (.s _) _ rest => rest.hasTupleKey
 
-/-- `f"({k[0]}, {k[1]})"` for one key of a dict that has a tuple key (`none` = IndexError).
-    A string key is indexed character-wise, as Python does. -/
-def renderKey : Key → Option Str
-  | .t (a :: b :: _) => some (renderPair a b)
-  | .t _ => none
-  | .s (a :: b :: _) => some (renderPair [a] [b])
-  | .s _ => none
+/-- what `k[i]` is for a key: the elements of a tuple, the characters of a string (as Python indexes them) -/
+def keyElems : Key → List Str
+  | .t ks => ks
+  | .s k => k.map ([·])
+
+/-- the generated f-string of `save_model` (`f"({k[0]}, {k[1]})"`) for one key of a dict that has a tuple key
+    (`none` = IndexError) -/
+def renderKey (k : Key) : Option Str := Regex.renderWith Generated.renderTemplate (keyElems k)
 
 /-- `{f"{k}": v for k, v in zip(keys, prop.values())}` -/
 def renderKeys : KV → KV → Option KV
@@ -762,7 +719,14 @@ def driverStep (_ : Unit) (ts : List Tree) : Unit × String :=
     match ts with
     | [.atom "twm", s] => do some (showBool (tupleWordMatch (← Tree.chars? s)))
     | [.atom "words", s] => do some (showStrL (wordFindall (← Tree.chars? s)))
-    | [.atom "render", a, b] => do some (encS (renderPair (← Tree.chars? a) (← Tree.chars? b)))
+    | [.atom "render", a, b] => do
+        some (match renderKey (.t [← Tree.chars? a, ← Tree.chars? b]) with
+              | some r => encS r
+              | none => "none")
+    | [.atom "renderkey", k] => do
+        some (match renderKey (← parseKey? k) with
+              | some r => encS r
+              | none => "none")
     | [.atom "sci", s] => do
         some (match sciRest (← Tree.chars? s) with
               | none => "none"
